@@ -552,7 +552,8 @@ def acctlog_history(exe, rng, idx):
     for ident in range(idx % 3, 64, 3 if idx % 2 else 1):
         if h.s.dead:
             break
-        h.rq(0, h.make_request(0, code=4, user=rng.choice([b"u@ab", b"u@x", b"u"]), ident=ident, extra=[]))
+        u = rng.choice([b"u@ab", b"u@x", b"u"])
+        h.rq(0, h.make_request(0, code=4, user=(b"u@ab" if ident % 3 == 0 else u), ident=ident, extra=[]))
         h.tag("reply-queued")
         if rng.random() < 0.3:
             h.send("pop 0")
@@ -786,6 +787,67 @@ def exact_request(h, k, code, total, ident):
     pkt = R.build(code, ident, R.rand_bytes(h.rng, 16), attrs, h.cl[k]["secret"])
     assert len(pkt) == total, (len(pkt), total)
     return pkt
+
+
+def filled(total, attrs):
+    """`attrs` followed by filler attributes (type 25) so that the whole packet has exactly `total` octets"""
+    attrs = list(attrs)
+    left = total - 20 - sum(2 + (16 if v is None else len(v)) for t, v in attrs)
+    while left > 0:
+        n = min(255, left)
+        if left - n == 1:
+            n -= 1
+        if n < 2:
+            t, v = attrs.pop()
+            attrs.append((t, v + b"z" * n))
+            break
+        attrs.append((25, bytes((7 * i + left) % 256 for i in range(n - 2))))
+        left -= n
+    return attrs
+
+
+def grow_history(exe, rng, idx):
+    """messages the proxy makes LONGER than it got them (a Message-Authenticator put in front, a TTL appended), received with a size
+    at and just below the limit of 4096 octets: what would leave with more than 4096 octets is dropped, whichever attribute it is
+    that crosses the line - also the last one"""
+    cfg = W.rand_cfg(rng, rewrites=False, ttl=True, plain_ttl=True, nclients=1, nservers=1, types=[rng.choice([0, 2])])
+    cfg.clients[0].update(rwin=None, rwout=None, rwuser=None, reqma=False, reqmap=False)
+    cfg.servers[0].update(rwin=None, rwout=None, addttl=rng.choice([0, 0, 9]))
+    cfg.opts["addttl"] = rng.choice([0, 7])
+    cfg.opts["verifyeap"] = 0
+    sv = cfg.servers[0]["name"]
+    cfg.realms = [dict(name=b"*", srv=[sv], acc=[sv], msg=None, accresp=False)]
+    h = Hist(exe, rng, cfg)
+    if not h.alive:
+        return h.finish(kind="cfg-crash")
+    h.client(cfg.clients[0])
+    sec = cfg.clients[0]["secret"]
+    for step in range(12):
+        if h.s.dead:
+            break
+        total = rng.choice([4096, 4095, 4091, 4090, 4085, 4079, 4078, 4060, 3000])
+        kind = step % 3
+        if kind == 0:      # Access-Request without Message-Authenticator: gains one (18 octets) on its way
+            pkt = R.build(1, step, R.rand_bytes(rng, 16), filled(total, [(1, b"u@x")]), sec)
+        elif kind == 1:    # Accounting-Request: gains the AddTTL attribute, if one is configured
+            pkt = R.build(4, step, b"", filled(total, [(1, b"u@x")]), sec)
+        else:              # Access-Request with Message-Authenticator
+            pkt = R.build(1, step, R.rand_bytes(rng, 16), filled(total, [(80, None), (1, b"u@x")]), sec)
+        assert len(pkt) == total
+        out = h.rq(0, pkt)
+        if " fwd:" in out:
+            h.tag("forwarded")
+        if h.outstanding and rng.random() < 0.6:
+            # … and the reply: an Access-Accept without Message-Authenticator gains one on its way to the client
+            ent = h.outstanding.pop()
+            h.send("writer " + ent[0])
+            rtotal = rng.choice([4096, 4090, 4085, 4079, 4078, 3000])
+            fw = ent[2]
+            rp = R.build(5 if fw[0] == 4 else 2, fw[1], b"", filled(rtotal, [(18, b"ok")]), h.srv(ent[0])["secret"], rqauth=fw[4:20])
+            h.send("reply %s %s" % (ent[0], rp.hex()))
+            h.send("pop 0")
+    h.send("pop 0")
+    return h.finish(kind="grow")
 
 
 def udp_size_history(exe, rng, idx):
